@@ -9,6 +9,7 @@ import (
 	"math/rand"
 	"strings"
 	"sync"
+	"sync/atomic"
 	"time"
 
 	"github.com/herohde/morlock/cmd/bernstein/bernstein"
@@ -46,12 +47,12 @@ func Table(seed int64, d time.Duration) int {
 				case 2, 3:
 					if _, _, s, m, ok := tt.Read(h); ok {
 						if int(m.From) != int(s.Pawns)%32 {
-							panic(fmt.Sprintf("table hit mixes stores: %v %v", s, m))
+							panic(fmt.Sprintf("ORACLE[hit-mixes-stores]: a table hit returned score %v with move %v: no single store wrote that tuple", s, m))
 						}
 					}
 				default:
 					if u := tt.Used(); u < 0 || u > 1 {
-						panic(fmt.Sprintf("Used() = %v", u))
+						panic(fmt.Sprintf("ORACLE[fill-fraction-out-of-range]: Used() = %v", u))
 					}
 				}
 				ops[g]++
@@ -63,7 +64,27 @@ func Table(seed int64, d time.Duration) int {
 	for _, o := range ops {
 		tot += o
 	}
-	return tot
+	// fill phase: several goroutines fill disjoint parts of an empty table, every slot exactly once;
+	// afterwards the fill fraction must be exactly 1 (a counter updated by load-then-store loses updates)
+	big := uint64(1) << 14
+	ft := search.NewTranspositionTable(context.Background(), big<<5)
+	parts := 2 + r.Intn(7)
+	var fw sync.WaitGroup
+	for g := 0; g < parts; g++ {
+		g := g
+		fw.Add(1)
+		go func() {
+			defer fw.Done()
+			for h := uint64(g); h < big; h += uint64(parts) {
+				ft.Write(board.ZobristHash(h), search.ExactBound, 1, 1, eval.HeuristicScore(1), board.Move{From: board.Square(1), To: board.Square(2)})
+			}
+		}()
+	}
+	fw.Wait()
+	if u := ft.Used(); u != 1 {
+		panic(fmt.Sprintf("ORACLE[fill-count-wrong]: %d goroutines filled every one of %d empty slots exactly once; Used() says %v", parts, big, u))
+	}
+	return tot + int(big)
 }
 
 // must runs f and panics with a DEADLOCK message if it does not return within 30 s of real time:
@@ -78,12 +99,36 @@ func must(what string, f func()) {
 	}
 }
 
+// stall is an evaluator that now and then takes a while (atomically counted, so it adds no race of its
+// own): a halted search then needs a moment to notice, which is when a Halt that does not wait for it,
+// or an Analyze that does not wait for Halt, lets two searches of one engine run side by side.
+type stall struct {
+	inner eval.Evaluator
+	n     *atomic.Int64
+}
+
+func (s stall) Evaluate(ctx context.Context, b *board.Board) eval.Pawns {
+	if s.n.Add(1)%48 == 0 {
+		time.Sleep(150 * time.Microsecond)
+	}
+	return s.inner.Evaluate(ctx, b)
+}
+
+var slowLeaves atomic.Bool // set by the workloads that want stalling evaluators
+
+func wrap(e eval.Evaluator) eval.Evaluator {
+	if slowLeaves.Load() {
+		return stall{inner: e, n: new(atomic.Int64)}
+	}
+	return e
+}
+
 func build(ctx context.Context, w int, opts engine.Options) (*engine.Engine, []uci.Option) {
 	switch w {
 	case 0:
-		return engine.New(ctx, "morlock", "x", search.AlphaBeta{Eval: search.Leaf{Eval: eval.Material{}}}, engine.WithOptions(opts), engine.WithTable(search.NewMinDepthTranspositionTable(1))), nil
+		return engine.New(ctx, "morlock", "x", search.AlphaBeta{Eval: search.Leaf{Eval: wrap(eval.Material{})}}, engine.WithOptions(opts), engine.WithTable(search.NewMinDepthTranspositionTable(1))), nil
 	case 1:
-		s := search.AlphaBeta{Eval: search.Quiescence{Explore: turochamp.ConsiderableMovesOnly, Eval: search.Leaf{Eval: turochamp.Eval{}}}}
+		s := search.AlphaBeta{Eval: search.Quiescence{Explore: turochamp.ConsiderableMovesOnly, Eval: search.Leaf{Eval: wrap(turochamp.Eval{})}}}
 		return engine.New(ctx, "turochamp", "x", s, engine.WithOptions(opts)), nil
 	case 2:
 		points := &sargon.Points{}
@@ -190,6 +235,8 @@ func UCI(seed int64, d time.Duration, w int) int {
 // asking Engine.Analyze for the next one (accepted as soon as the engine considers itself idle).
 func EngineTwoClients(seed int64, d time.Duration, w int, noise uint) int {
 	r := rand.New(rand.NewSource(seed))
+	slowLeaves.Store(r.Intn(2) == 0)
+	defer slowLeaves.Store(false)
 	ctx, cancel := context.WithCancel(context.Background())
 	defer cancel()
 	e, _ := build(ctx, w, engine.Options{Noise: noise})
@@ -209,6 +256,14 @@ func EngineTwoClients(seed int64, d time.Duration, w int, noise uint) int {
 	drain(out)
 	for time.Now().Before(deadline) {
 		time.Sleep(time.Duration(r.Intn(2000)) * time.Microsecond)
+		// every other analysis runs under a clock of a few milliseconds, so that its hard-limit timer halts
+		// it at about the moment the client does: two halters of one search, then the next analysis at once
+		next := searchctl.Options{DepthLimit: lang.Some(uint(0))}
+		if r.Intn(3) > 0 {
+			// hard limit = 3/80 of the clock: 0.1 .. 2 ms, the range of the pause above
+			c := time.Duration(3+r.Intn(50)) * time.Millisecond
+			next.TimeControl = lang.Some(searchctl.TimeControl{White: c, Black: c})
+		}
 		var wg sync.WaitGroup
 		wg.Add(2)
 		go func() {
@@ -219,7 +274,7 @@ func EngineTwoClients(seed int64, d time.Duration, w int, noise uint) int {
 			defer wg.Done()
 			must("Engine.Analyze after a halt", func() {
 				for {
-					out, err := e.Analyze(ctx, searchctl.Options{DepthLimit: lang.Some(uint(0))})
+					out, err := e.Analyze(ctx, next)
 					if err == nil {
 						drain(out)
 						return
@@ -298,7 +353,7 @@ func UCIRounds(seed int64, d time.Duration, w int) int {
 		})
 		time.Sleep(time.Duration(200+r.Intn(800)) * time.Microsecond)
 		if b, _ := get(); b != b0+1 {
-			panic(fmt.Sprintf("ORACLE: %d bestmove lines for one go (round %d)", b-b0, n))
+			panic(fmt.Sprintf("ORACLE[wrong-answer-count]: %d bestmove lines for one go (round %d)", b-b0, n))
 		}
 		n++
 	}
